@@ -32,11 +32,13 @@ def run(F, chk):
     hdrtab.check(F, H1)
     nexts = [b for b in F.order if b.path.startswith('<' + IT) and b.impl_trait == 'std::iter::Iterator' and b.path.endswith('::next')]
     K1.floor('DltMessageIterator::next', len(nexts), 1)
+    K3 = chk.rule('K3', 'iterator: a position reaches the serial parser only when serial framing is latched or the storage parser has just been tried at that same position')
     for b in nexts:
-        check_iterator(b, K1, K2)
+        check_iterator(b, K1, K2, K3, F)
+    K3.floor('serial parse attempts reached (states)', K3.sites, 1)
 
 
-def check_iterator(b, K1, K2):
+def check_iterator(b, K1, K2, K3=None, F=None):
     cfg = CFG(b)
     E = ExprBuilder(cfg, fold_named=True)
     K1.fn(b.path)
@@ -54,7 +56,7 @@ def check_iterator(b, K1, K2):
                 K2.violation(('index-argument', b.path, parse_blocks[blk.i]), 'the %s parser is called with index %s instead of self.index' % (parse_blocks[blk.i], a0), where=b.loc(blk.term.sp))
     K1.floor('parse attempts in the iterator', len(parse_blocks), 2)
 
-    def field_inc(s, fld):
+    def field_inc(s, fld, E=E):
         if s.k != 'assign':
             return None
         t = show(E.target(s.place))
@@ -65,17 +67,18 @@ def check_iterator(b, K1, K2):
             return e[3]
         return ('other',)
 
-    def stmt_event(s, blk):
+    def stmt_event(s, blk, E=E, top=True):
         out = []
-        v = field_inc(s, 'bytes_processed')
+        finc = lambda s_, f_: field_inc(s_, f_, E)
+        v = finc(s, 'bytes_processed')
         if v is not None:
             out.append('proc_1' if v == ('const', 1) else 'proc_n' if v != ('other',) else 'proc_bad')
             if v not in (('const', 1), ('other',)):
                 out.append('procarg:' + show(v))
-        v = field_inc(s, 'bytes_skipped')
+        v = finc(s, 'bytes_skipped')
         if v is not None:
             out.append('skip_1' if v == ('const', 1) else 'skip_bad')
-        v = field_inc(s, 'index')
+        v = finc(s, 'index')
         if v is not None:
             out.append('index_1' if v == ('const', 1) else 'index_bad')
         if s.k == 'assign':
@@ -83,17 +86,58 @@ def check_iterator(b, K1, K2):
             if t in ('(*self).detected_storage_header', '(*self).detected_serial_header'):
                 val = E.rvalue(s.rv)
                 out.append('latch_' + ('storage' if 'storage' in t else 'serial') if val == ('const', 1) else 'latch_bad')
-            if s.place.is_local and s.place.l == 0 and s.rv['k'] == 'agg':
+            if top and s.place.is_local and s.place.l == 0 and s.rv['k'] == 'agg':
                 out.append('ret_some' if s.rv.get('variant') == 'Some' else 'ret_none')
         return out
 
-    def term_event(t, blk):
+    def term_event(t, blk, E=E, top=True):
         if t.k == 'call' and t.callee.path.endswith('BufRead::consume'):
             a = E.operand(t.args[1])
             if a == ('const', 1):
                 return ['cons_1']
             return ['cons_n', 'consarg:' + show(a)]
+        if top and t.k == 'call' and blk.i in helper_calls:
+            return list(helper_calls[blk.i])
         return None
+
+    # private methods of the iterator called with `self` (skip_one_byte(), consume_msg(n), ..): their effect on the counters
+    # is summarised (the same events on every path through the method, else the call counts as an irregular update) and
+    # replayed at the call site; size arguments are substituted by the caller's argument text
+    helper_calls = {}
+    if F is not None:
+        for blk in b.calls():
+            t = blk.term
+            H = F.get(t.callee.resolved) if t.callee.resolved else F.get(t.callee.path)
+            if H is None or H.kind == 'closure' or H.path == b.path or not (H.impl_self or H.path).startswith(IT) or not t.args or 'DltMessageIterator' not in (t.args[0].ty or ''):
+                continue
+            hcfg = CFG(H)
+            hE = ExprBuilder(hcfg, fold_named=True)
+            hx = pairing.explore_counts(hcfg, lambda s_, b_: [e for e in stmt_event(s_, b_, hE, False) if ':' not in e], lambda t_, b_: [e for e in (term_event(t_, b_, hE, False) or []) if ':' not in e])
+            finals = set()
+            for rb in hcfg.exits:
+                for st in hx.out_states.get(rb, ()):
+                    finals.add(frozenset(f for f in st[1] if f[0] == 'n'))
+            if len(finals) != 1:
+                helper_calls[blk.i] = ['proc_bad']
+                continue
+            evs = []
+            for (_n, name, k) in finals.pop():
+                evs += [name] * k
+            # argument texts: parameter names -> caller's argument expressions
+            pmap = {}
+            for i, a in enumerate(t.args):
+                pmap[H.name_of(i + 1) or 'arg%d' % (i + 1)] = show(E.operand(a))
+            for hb in H.blocks:
+                if hb.cleanup:
+                    continue
+                for s_ in hb.stmts:
+                    for e in stmt_event(s_, hb, hE, False):
+                        if e.startswith('procarg:'):
+                            evs.append('procarg:' + pmap.get(e[8:], e[8:]))
+                for e in term_event(hb.term, hb, hE, False) or []:
+                    if e.startswith('consarg:'):
+                        evs.append('consarg:' + pmap.get(e[8:], e[8:]))
+            helper_calls[blk.i] = evs
 
     def reset_at(blk):
         if blk.i in parse_blocks:
@@ -124,6 +168,8 @@ def check_iterator(b, K1, K2):
         for e in term_event(blk.term, blk) or []:
             if e.startswith('consarg:'):
                 cons_args.add((blk.i, e[8:]))
+            if e.startswith('procarg:'):
+                proc_args.add((blk.i, e[8:]))
 
     def be(blk, facts):
         names_reset = reset_at(blk)
@@ -136,7 +182,48 @@ def check_iterator(b, K1, K2):
         for nm in term_event2(blk.term, blk):
             facts = pairing.bump(facts, nm)
         return facts
-    ex = Explorer(cfg, block_effect=be, var_roots=set())
+    # the two latch fields decide which parser is tried: their tested values are kept as facts (and contradicting edges are
+    # pruned) so that "which parser comes next" is judged on feasible paths only
+    LATCH = {'(*self).detected_storage_header': 'dsh', '(*self).detected_serial_header': 'dser'}
+
+    def be_latch(blk, facts):
+        facts = be(blk, facts)
+        for s in blk.stmts:
+            if s.k == 'assign':
+                t = show(E.target(s.place))
+                if t in LATCH:
+                    v = E.rvalue(s.rv)
+                    facts = frozenset(f for f in facts if not (f[0] == 'fld' and f[1] == LATCH[t]))
+                    if isinstance(v, tuple) and v[0] == 'const' and v[1] in (0, 1):
+                        facts = frozenset(facts | {('fld', LATCH[t], bool(v[1]))})
+        return facts
+
+    def ee_latch(blk, tgt, facts):
+        if blk.term.k != 'switch':
+            return facts
+        c = E0.switch_cond(blk)
+        neg = False
+        while isinstance(c, tuple) and c[0] == 'un' and c[1] == 'Not':
+            c, neg = c[2], not neg
+        nm = LATCH.get(show(c))
+        if nm is None:
+            return facts
+        val = None
+        for v, t_ in blk.term.d['vals']:
+            if t_ == tgt:
+                val = bool(v)
+        if val is None and blk.term.d['otherwise'] == tgt and [v for v, _ in blk.term.d['vals']] == [0]:
+            val = True
+        if val is None:
+            return facts
+        if neg:
+            val = not val
+        for f in facts:
+            if f[0] == 'fld' and f[1] == nm:
+                return facts if f[2] == val else None
+        return frozenset(facts | {('fld', nm, val)})
+    E0 = ExprBuilder(cfg)
+    ex = Explorer(cfg, block_effect=be_latch, edge_effect=ee_latch, var_roots=set())
     ex.run()
     K1.paths += ex.n_states
     # checkpoints: entry of each parse block (end of previous segment) and every return
@@ -157,6 +244,16 @@ def check_iterator(b, K1, K2):
                        c('latch_storage') == 0 and c('latch_serial') == 0)
             none_ok = all(c(n) == 0 for n in ALL if n != 'ret_none')
             kind = 'message' if msg_ok else 'skip' if skip_ok else 'nothing' if none_ok else None
+            if K3 is not None and what == 'next parse attempt' and parse_blocks.get(bi) == 'serial':
+                # a position is handed to the serial parser only if serial framing is latched, or the storage parser has just
+                # been tried at this very position (nothing consumed since)
+                K3.sites += 1
+                if ('fld', 'dser', True) in f or (seg[0] == 'storage' and none_ok):
+                    K3.ok(sample={'serial_attempt_after': seg[0] + ' parse', 'segment': kind, 'serial_latched': ('fld', 'dser', True) in f})
+                else:
+                    K3.violation(('position-not-tried-with-storage-parser', b.path, seg[0], kind or 'other'), 'before any framing is detected the iterator can hand a position to the serial parser right after a %s parse attempt followed by {%s}: '
+                                 'the storage parser was never tried at that position, so a storage message starting there is skipped over' % (seg[0], ','.join('%s=%d' % (n, c(n)) for n in ALL if c(n)) or 'nothing'),
+                                 where=b.loc(None), witness={'block_path': ex.witness(bi, st)[-40:]})
             if kind and not bad:
                 seen_kinds.add((seg[0], kind))
                 (K1 if kind != 'message' else K2).ok(sample={'segment_after': seg[0] + ' parse', 'ends_at': what, 'kind': kind,
